@@ -1,6 +1,7 @@
 import SockModel.Model.HsSched
 import SockModel.Model.HsTimed
 import SockModel.Model.HsBlock
+import SockModel.Model.HsAsync
 import SockModel.Model.TlsBudget
 /-!
 # C18: handshake completion beyond the polling schedule
@@ -472,5 +473,109 @@ example : ∀ k ∈ blockDemoProg, k.ok := by decide
 example : ∀ a ∈ [ActU.poll, ActU.poll], a = .poll := by decide
 example : [ActU.poll, ActU.poll].length + tinyP'.half ≤ blockDemoProg.length := by decide
 example : tinyP'.half ≤ polls (ActU.block .send :: List.replicate 6 ActU.poll) := by decide
+
+/-! ## (D) an asynchronous (driver-operated) endpoint paired with a polling synchronous peer
+
+"... or by the driver ... for every combination of sync/async endpoints".  The asynchronous endpoint is the model of
+`Model/Tls.lean`: `aQuery` (`DriverQuery` through `QuerySockets`), `aTask` (`DoOneSocketTask`), `aReadable`
+(`DriverOnReadable` → `Receive(data, size)` → `receiveReadable`) - composed with the reference engine and the two
+channels; `poll` reports what the channels dictate (`SysAS.rev`: readable iff bytes are in flight, writable, no
+HUP/ERR).
+
+Proved: the pairing **asynchronous server / polling synchronous client**, nothing queued on the server
+(`handshake_completes_async_server`).  The server then only ever runs readable tasks; `POLLOUT` is never requested
+(`AInv.po`), so the `pollout_protocol` invariant of Props/C18.lean holds trivially.
+NOT proved (open): an asynchronous CLIENT - it starts its handshake only through a writable task, i.e. with a buffer
+queued and `POLLOUT` armed (`Armed`); the reduction of the writable task to `Send(front, 0)` needs, beyond
+`tlsWrite_fl` / `tlsWrite_hs` below (proved), the fact that every readable task leaves `isReadable = false` (true of
+the code, an induction over `hsRun` not done here), because `prepWritable` keeps a stale `isReadable`; a server with
+queued buffers (same reason); async/async pairings (two drivers). -/
+
+/-- **deemed_flags_are_harmless** - for ANY engine: on the healthy channel the glue's `Read` and `Write` commute with
+forgetting the "deemed readable / writable" flags a driver task sets (`nf`), provided the budget is 0 and the socket is
+deemed readable only while bytes towards it are in flight (what `poll` guarantees): same result, same engine, same
+channels, same glue up to the flags.  So `DriverOnReadable`'s `Receive(data, size)` is `Receive(size, 0)` and
+`DriverOnWritable`'s `SendSome` is `Send(…, 0)`. -/
+theorem deemed_flags_are_harmless {σ : Type} (C : Cfg) (r : Bool) (E : Engine σ) (s : St σ Chan) (hfl : Fl r s) :
+    (∀ n, tlsRead C (chanWorld r) E (nf s) n = ((tlsRead C (chanWorld r) E s n).1, nf (tlsRead C (chanWorld r) E s n).2)) ∧
+    (∀ d, tlsWrite C (chanWorld r) E (nf s) d = ((tlsWrite C (chanWorld r) E s d).1, nf (tlsWrite C (chanWorld r) E s d).2)) :=
+  ⟨fun n => (tlsRead_fl C r E s n hfl).1, fun d => (tlsWrite_fl C r E s d hfl).1⟩
+
+/-- **readable_task_progress**: the driver's readable task on a socket `poll` reported readable, against the
+reference engine: no exception, no assert; the side invariant is kept; the engine only moves forward and strictly so
+if it can progress; afterwards an unfinished engine has WANT_READ cached, a finished one nothing. -/
+theorem readable_task_progress (C : Cfg) (hC : 0 < C.stepsMax) (P : HsP) (r : Bool) (data : Bytes) (rx : Nat)
+    (hrx : 1 ≤ rx) (s : St Hs Chan) (hi : SideInv P r data (nf s)) (hin : 0 < s.w.inb r) :
+    ∃ bs s', receiveReadable C (chanWorld r) (engine P) s rx = (.ok bs, s') ∧ SideInv P r data (nf s') ∧
+      Tr P r s.e s.w s'.e s'.w ∧ (CanProg r s.e s.w → work P s'.e < work P s.e) ∧ Tight (nf s') ∧
+      (3 ≤ s'.e.stage → s'.g.lastError = .none) :=
+  receiveReadable_hs C hC P r data rx hrx s hi hin
+
+/-- each side acts at least once in every window of `w` steps: a `Driver::Step` of the server and a call of the
+client -/
+def AFair (w : Nat) (l : List ActA) : Prop :=
+  ∀ i, i < l.length + 1 - w →
+    (∃ a ∈ (l.drop i).take w, a = ActA.drive) ∧ (∃ a ∈ (l.drop i).take w, a ≠ ActA.drive)
+
+instance (w : Nat) (l : List ActA) : Decidable (AFair w l) := by
+  unfold AFair; exact inferInstance
+
+/-- **handshake_completes_async_server**: asynchronous server (driver-operated, receive buffer size `rx ≥ 1`,
+nothing queued), polling synchronous client (`Send(dc, 0)` / `Receive(n, 0)` in any order).  For every schedule of
+driver steps and client calls in which both occur in every window of `w` steps: after at most `w · 2·(k1+k2+k3+3)`
+steps, and after every longer prefix, both sides are `init_finished`; no driver step and no client call throws or
+asserts; the server never requests `POLLOUT`. -/
+theorem handshake_completes_async_server (C : Cfg) (hC : 1 < C.stepsMax) (P : HsP) (dc ds : Bytes) (hdc : dc ≠ [])
+    (rx : Nat) (hrx : 1 ≤ rx) (segs : List Nat) (w : Nat) (l : List ActA) (hok : ∀ a ∈ l, a.okA) (hf : AFair w l)
+    (j : Nat) (hj : j ≤ l.length) :
+    (SysAS.run C P dc rx (l.take j) (SysAS.init P segs)).faults = 0 ∧
+    (SysAS.run C P dc rx (l.take j) (SysAS.init P segs)).x.a.pollOut = false ∧
+    (P.total * w ≤ j → (SysAS.run C P dc rx (l.take j) (SysAS.init P segs)).bothFinished) := by
+  have hfair : (asTS C hC P dc ds hdc rx hrx).SideFair w l := by
+    intro i hi
+    obtain ⟨⟨a, ha, hd⟩, ⟨b, hb, hnd⟩⟩ := hf i (by omega)
+    refine ⟨⟨b, hb, ?_⟩, ⟨a, ha, by rw [hd]; rfl⟩⟩
+    cases b with
+    | drive => exact absurd rfl hnd
+    | peer k => rfl
+  obtain ⟨h1, h2⟩ := (asTS C hC P dc ds hdc rx hrx).fair_completes w l (SysAS.init P segs) (aInv_init P dc ds segs)
+    hok hfair j hj
+  rw [asTS_run] at h1 h2
+  have hmu : (asTS C hC P dc ds hdc rx hrx).mu (SysAS.init P segs) = P.total := by
+    show work P _ + work P _ = _
+    simp only [SysAS.init, work_init, HsP.total]; omega
+  rw [hmu] at h2
+  refine ⟨?_, h1.po, h2⟩
+  have := h1.inv.2.2.2.2.2.2
+  simpa [SysAS.sys, mkSys] using this
+
+/-- the fairness hypothesis is needed: if the server's driver is never stepped the server's engine is never touched -/
+theorem undriven_server_never_completes (C : Cfg) (P : HsP) (dc : Bytes) (rx : Nat) (segs : List Nat) (l : List ActA)
+    (hl : ∀ a ∈ l, a ≠ ActA.drive) :
+    (SysAS.run C P dc rx l (SysAS.init P segs)).x.s.e = Hs.init P false ∧
+    ¬ (SysAS.run C P dc rx l (SysAS.init P segs)).bothFinished := by
+  have key : ∀ (l : List ActA) (y : SysAS), (∀ a ∈ l, a ≠ ActA.drive) → (SysAS.run C P dc rx l y).x.s.e = y.x.s.e := by
+    intro l
+    induction l with
+    | nil => intro y _; rfl
+    | cons a l ih =>
+      intro y h
+      show (SysAS.run C P dc rx l (y.step C P dc rx a)).x.s.e = _
+      rw [ih _ (fun b hb => h b (List.mem_cons_of_mem _ hb))]
+      cases a with
+      | drive => exact absurd rfl (h _ (List.mem_cons_self ..))
+      | peer k => rfl
+  have h := key l (SysAS.init P segs) hl
+  refine ⟨h, ?_⟩
+  intro hb
+  have := hb.2
+  rw [h] at this
+  simp [SysAS.init, Hs.init] at this
+
+/-- instances: the client sends first / receives first; the driver is stepped twice as often as the client calls -/
+example : AFair 3 ((List.replicate 8 [ActA.drive, ActA.peer .send, ActA.drive]).flatten) := by decide
+example : AFair 2 ((List.replicate 8 [ActA.peer (.recv 5), ActA.drive]).flatten) := by decide
+example : ¬ AFair 2 ((List.replicate 8 [ActA.peer (.recv 5), ActA.peer .send]).flatten) := by decide
+example : ∀ a ∈ (List.replicate 8 [ActA.peer (.recv 5), ActA.drive]).flatten, a.okA := by decide
 
 end SockModel.Hs.C18Hs
